@@ -17,46 +17,69 @@ plus the values named by the property (1e-8, 1e-3, 8, 40, 100) and fillers betwe
 points (0.3, 3, 5, 12, 30, 37, 38.6 [just above the erfc underflow at 38.5], 60, 99) so that a
 *moved* switch lands between two lattice values.
 
-MUTATIONS the check must catch (M1..M4 verified by hand on a scratch copy of optuna, quick tier;
-violation keys seen are listed):
+MUTATIONS the check must catch (M1..M5 all verified by hand on a scratch copy of optuna, quick
+tier; the violation keys seen are listed, "..." stands for the regime part of the key):
   M1 _truncnorm._log_ndtr_single: `if a > -20` -> `if a > -40`  (moved switch; log(0) below -38.5)
-       -> "...|exception:ValueError" keys for ppf / logpdf / _log_gauss_mass / _log_ndtr in the m>20 regimes
-  M2 _truncnorm._log_gauss_mass: central case dropped (case_central computed by the old
-     `_log_sum(mass_case_left(a, 0), mass_case_right(0, b))` replaced by mass_case_left(a, b))
-       -> "truncnorm._log_gauss_mass|central...|nan" / "log-abs-err", logpdf and ppf keys likewise
+       -> "truncnorm.{ppf,logpdf,rvs,_log_gauss_mass,_log_ndtr,_ndtri_exp}|...|exception:ValueError",
+          "mixture.log_pdf|kinds=D ...|exception:ValueError"
+  M2 _truncnorm._log_gauss_mass: the `out[case_central] = mass_case_central(...)` assignment dropped
+     (central intervals keep the NaN fill value)
+       -> "truncnorm._log_gauss_mass|central...|nan", "truncnorm.logpdf|central...|nan",
+          "truncnorm.ppf|...|outside-interval(gross),...", "mixture.log_pdf|...|nan",
+          "mixture.sample|...|outside-domain(T)"
+     (replacing the central formula by the older log-sum of the two half masses is NOT detectable
+     and not a defect at the stated log-scale tolerance: it differs by ~1e-16 absolute)
   M3 _truncnorm._bisect: `range(100)` -> `range(30)`  (bisection stops at 2e-7 resolution)
-       -> "truncnorm.ppf|...narrow|abs-err...", "...|outside-interval(small)...", "truncnorm._ndtri_exp|...|rel-err"
-  M4 _erf.py: pa3 = 3.18346619901161753674e-01 -> 3.18346619901161753600e-01 is below double
-     resolution, so the realistic slip is one digit higher up: pa3 -> 3.18346619901261753674e-01
-       -> "erf|0.84375<=|x|<1.25|rel-err", also "truncnorm._log_gauss_mass|central...|log-abs-err"
+       -> "truncnorm.ppf|...narrow|outside-interval(small),...", "truncnorm.ppf|...|abs-err,...",
+          "truncnorm.rvs|...|abs-err", "truncnorm._ndtri_exp|-20<x<=6|rel-err"
+  M4 _erf.py: pa1 = 4.14856118683748331666e-01 -> 4.14856118684748331666e-01 (12th digit)
+       -> "erf|0.84375<=|x|<1.25|rel-err", "erf|lattice|non-monotone", "truncnorm._ndtr|-20<z<=6|abs-err"
+     (slips below ~1e-13 relative in a coefficient, or in the erfc-range coefficients rb*, do not
+     change erf() beyond rounding and are equivalent mutants: rb6 9th digit -> nothing, verified)
   M5 _truncnorm.ppf.ppf_right: `return -_ndtri_exp(...)` -> `return _ndtri_exp(...)` (sign slip)
-       -> "truncnorm.ppf|ppf-right...|outside-interval(gross)...", "truncnorm.rvs|...|outside-interval..."
+       -> "truncnorm.ppf|ppf-right,...|outside-interval(gross),...", "truncnorm.rvs|...|outside-interval",
+          "mixture.sample|...|outside-domain(T)"
 
-TOLERANCES (measured on the unmodified tree over the thorough lattice; tolerance ~100x above the
-measured maximum and never looser than 1e-6 relative in the bulk):
-  erf                : rel 1e-13                       (measured 1.5e-16)
-  _ndtr              : abs 1e-13                       (measured 1.2e-16; it is 0.5+0.5*erf, abs only)
-  _log_ndtr          : abs 1e-9*max(1,|v|)             (measured 2.3e-16*max(1,|v|))
-  _ndtri_exp         : rel 1e-6, for y <= log(Phi(6))  (measured 2.3e-9; above that Phi(x) is within
-                       1e-9 of 1 and x is not determined by log Phi(x) in doubles - both sides share this)
+TOLERANCES (measured on the unmodified tree over the thorough lattice; tolerance >= ~100x the
+measured maximum and never looser than 1e-6 relative in the bulk; the measured maxima of every run
+are in the evidence as max_err_*; max_err_*_over_tol is error/tolerance and must stay << 1):
+  erf                : rel 2e-14                       (measured 1.5e-16)
+  _ndtr              : abs 1e-13                       (measured 1.1e-16; it is 0.5+0.5*erf, abs only)
+  _log_ndtr          : abs 1e-9*max(1,|v|)             (measured 4.2e-16*max(1,|v|))
+  _ndtri_exp         : 1e-6*max(|x|,1e-6), for y <= log(Phi(6))  (measured 1.4e-9; above that Phi(x)
+                       is within 1e-9 of 1 and x is not determined by log Phi(x) in doubles - both
+                       implementations share this)
   _log_gauss_mass    : abs tol_log(w)*max(1,|v|), tol_log(w) = max(1e-9, 1e-14/w), w = b-a
-     and logpdf        (cancellation log Phi(b) - log Phi(a) on narrow intervals loses ~eps*|v|/w in
+                       (cancellation log Phi(b) - log Phi(a) on narrow intervals loses ~eps*|v|/w in
                        *both* implementations; measured 4.7e-9 at w=1e-8, 5.5e-11 at w=1e-6,
-                       1e-15 for w >= 1e-4)
+                       6.2e-13 for w >= 1e-5: error/tolerance <= 0.0055)
+  logpdf             : abs tol_log(w)*max(1,|log mass|) + 1e-9*max(1,|v|)   (error/tolerance <= 0.0047)
   ppf, rvs           : |ours-scipy| <= max(1e-6*min(w, max(1,|x|)), 1024*eps*max(1,|x|))
-                       (measured: 2.7e-9 relative for wide intervals, 6 ulp on narrow ones); not
-                       compared where a < 0 and SciPy's x > 6 (ill-conditioned, counted)
+                       (measured: 2.7e-9*min(w, max(1,|x|)) for w >= 0.1, 7 ulp on narrower ones;
+                       error/tolerance <= 0.0068); not compared where a < 0 and SciPy's x > 6
+                       (ill-conditioned, counted as excluded_ill_conditioned)
   containment        : ppf/rvs in [a - s(a), b + s(b)], s(e) = max(64*eps*max(1,|e|),
-     and monotonicity  1e-6*min(w, max(1,|e|))); measured excursions on the unmodified tree are
-                       <= 10 ulp (SciPy has the same ones) and are counted as
-                       `ppf_outside_strict_within_slack`, not reported
-  integral           : |int exp(logpdf) - 1| <= max(1e-6, 1e-12/w)  (measured 2.6e-9 for w >= 1e-5,
-                       4e-7*... see evidence max_err_integral_*), only where the same quadrature of
-                       SciPy's logpdf gives 1 +- 1e-9*... (else counted as untrusted)
-  mixture log_pdf    : abs 1e-9*max(1,|v|)             (measured 3e-14)
+     and monotonicity  1e-6*min(w, max(1,|e|))); the excursions measured on the unmodified tree are
+                       <= 10 ulp = 0.031 s (SciPy has the same ones); they are counted as
+                       `ppf_outside_strict_within_slack` and noted, not reported
+  integral           : |int exp(logpdf) - 1| <= max(1e-6, 1e-12/w)  (measured 9.6e-11 for w >= 1e-5,
+                       2.4e-7 at w = 1e-8: error/tolerance <= 0.0037), only where the same quadrature
+                       of SciPy's logpdf gives 1 within 1e-9 (1e-3 of the tolerance), else counted as
+                       excluded_quadrature_untrusted (narrow far-tail intervals where SciPy's own
+                       normaliser is off by up to 1.7e-6)
+  mixture log_pdf    : abs 1e-9*max(1,|v|)             (measured 1.9e-14)
   batched shapes     : bitwise equal to scalar calls (tolerance 0)
 SciPy's own failures (nan, +-inf, value outside [a,b] beyond the slack) are excluded and counted as
 `excluded_scipy_degenerate`.
+
+FINDINGS on the unmodified tree (genuine, kept reported; failure class names the root cause):
+  F1 `_ndtri_exp` bisects in the fixed bracket [-100, 100]; for a one-sided interval whose quantile lies
+     beyond it the swap `if f(a) > c: a, b = b, a` makes it converge to the *other* end:
+     ppf(0.5, -inf, -100.0) = +100.0, ppf(0.5, 100.0, inf) = -100.0 (so rvs samples fall outside),
+     also ppf(1e-300, -inf, -99.0) = +100.0.   keys: "...|outside-interval(x-beyond-bisection-bracket)..."
+  F2 ppf_left with a a hair below 0 (Phi(a) = 0.5) and q = 1-2**-53: log Phi(x) rounds to exactly 0 and
+     the bisection returns 38.475 (where erfc underflows) whatever b is:
+     ppf(1-2**-53, -1e-8, 9.0) = 38.475 > b.   key: "...|outside-interval(logPhi-rounds-to-0),q>=1-1e-16"
 """
 from __future__ import annotations
 
@@ -467,8 +490,9 @@ def check_ppf(part: Part, ivs: list[tuple[float, float]], qs: list[float]) -> No
                 _setmax(part, "err_ppf_ulps_narrow", err / (EPS * max(1.0, abs(r))))
             if not err <= tx[i]:
                 part.violation(f"truncnorm.ppf|{reg}|abs-err,{qclass(q)}", _f(dict(rep, error=err, tolerance=tx[i])))
-        if k % 997 == 0:
-            part.sample(_f({"fn": "ppf", "a": a, "b": b, "q": 0.5, "ours": ours[k * m + 5], "scipy": ref[k * m + 5]}))
+        if k % 997 == 0 and 0.5 in qs:
+            j5 = k * m + qs.index(0.5)
+            part.sample(_f({"fn": "ppf", "a": a, "b": b, "q": 0.5, "ours": ours[j5], "scipy": ref[j5]}))
 
 
 def x_lattice(a: float, b: float, loc: float, scale: float) -> list[float]:
